@@ -3,7 +3,7 @@ from pyvc.verify import Post, Case, Equiv, NativeFacts
 from contracts import common
 
 PROPERTY = 'C08'
-REF_MODULES = ['ref_core', 'ref_match', 'ref_reduce']
+REF_MODULES = ['ref_core', 'ref_match', 'ref_reduce', 'ref_auto']
 
 
 def config(cfg):
@@ -33,6 +33,9 @@ def contracts():
                                    ref_vars=[('result', 'ref'), ('previous', 'ref'), ('self', 'inst:grouping.Group'), ('scope', 'chainmap')])}))
     cs.append(Equiv('core.FILL', 'ref_core.fill_mode_ref', args={'target': 'ref', 'spec': 'ref', 'scope': 'chainmap'},
                     loops={1: dict(vars=[('recurse', 'ref')], ref_vars=[('recurse', 'ref')]), 2: dict(vars=[('recurse', 'ref')], ref_vars=[('recurse', 'ref')])}))
+    # specs that are NOT mode wrappers must not touch the mode: Pipe (a plain chain), Val, Spec
+    cs.append(Equiv('core.Pipe.glomit', 'ref_auto.pipe_ref', args={'self': 'inst:core.Pipe', 'target': 'ref', 'scope': 'chainmap'}))
+    cs.append(Equiv('core.Spec.glomit', 'ref_auto.spec_ref', args={'self': 'inst:core.Spec', 'target': 'ref', 'scope': 'chainmap'}))
     cs.append(Equiv('core._ArgValuator.mode', 'ref_core.argmode_ref', args={'self': 'inst:core._ArgValuator', 'target': 'ref', 'spec': 'ref', 'scope': 'chainmap'},
                     loops={1: dict(vars=[('recur', 'ref')], ref_vars=[('recur', 'ref')]), 2: dict(vars=[('recur', 'ref')], ref_vars=[('recur', 'ref')]),
                            3: dict(vars=[('recur', 'ref')], ref_vars=[('recur', 'ref')])}))
